@@ -175,6 +175,10 @@ def render(rec, kname, fixed=False, variant=0):
         elif k == "vec":
             v = f"v{10 * p}"
             head = (f"    int {v} = 0; ", f"    for(int64_t {v}=0; {v}<{lim}; {v}++){{ ", "")[variant % 3]
+            if variant % 3 == 1 and (variant // 3) % 2 == 1:
+                # whatever C text precedes the annotation on its line is replaced: the ANNOTATION defines the index set, also when
+                # the text is a loop header over other bounds
+                head = f"    for(int {v}=1; {v}<={lim}+2; {v}++){{ "
             out.append(f"{head}//vectorize_over {sp}{v} {sp}{lim}{sp}")
         elif k == "end":
             out.append(("    //end_vectorize", "    }//end_vectorize", "//end_vectorize ")[variant % 3])
